@@ -93,6 +93,28 @@ impl Hasher for Rec {
 '''
 
 
+REPLAY_MAIN = r'''
+// replay <prog> <harness> <bytes..>: run the recorded input natively against the real expansion; if it does not
+// reproduce, search natively (edge-biased random byte vectors) for an input on which derived and documented results differ.
+const EDGE: [u8; 16] = [0, 1, 2, 3, 15, 16, 17, 32, 60, 64, 127, 128, 129, 240, 254, 255];
+fn main() {
+    let a: Vec<String> = std::env::args().collect();
+    let b: Vec<u8> = a[3..].iter().map(|x| x.parse().unwrap()).collect();
+    let (ok, d) = ecrate::replay(&a[1], &a[2], &b);
+    if !ok { println!("REPRODUCED input={:?} {}", b, d); return; }
+    let mut st: u64 = 0x9e3779b97f4a7c15;
+    let mut next = || { st ^= st << 13; st ^= st >> 7; st ^= st << 17; st };
+    for _ in 0..400000u32 {
+        let mut v = Vec::with_capacity(40);
+        for _ in 0..40 { let r = next(); v.push(if r & 3 == 0 { (r >> 8) as u8 } else { EDGE[((r >> 8) & 15) as usize] }); }
+        let (ok, d) = ecrate::replay(&a[1], &a[2], &v);
+        if !ok { println!("FOUND input={:?} {}", v, d); return; }
+    }
+    println!("NOT-REPRODUCED recorded input gives: {}", d);
+}
+'''
+
+
 class Prog:
     def __init__(self, name, text, harnesses, meta=None, expect_compile=True):
         self.name, self.text, self.harnesses, self.meta = name, text, harnesses, meta or {}
@@ -145,9 +167,8 @@ unexpected_cfgs = { level = "allow", check-cfg = ['cfg(kani)'] }
         mods = "\n".join("pub mod %s;" % p.name for p in self.progs if p.name not in self.excluded)
         disp = "\n".join('        "%s" => %s::replay(h, b),' % (p.name, p.name) for p in self.progs if p.name not in self.excluded)
         open(os.path.join(self.dir, "src", "lib.rs"), "w").write(
-            "#![allow(unused)]\npub mod support;\n%s\npub fn replay(p: &str, h: &str, b: &[u8]) -> String {\n    match p {\n%s\n        _ => String::from(\"unknown program\"),\n    }\n}\n" % (mods, disp))
-        open(os.path.join(self.dir, "src", "bin", "replay.rs"), "w").write(
-            'fn main() { let a: Vec<String> = std::env::args().collect(); let b: Vec<u8> = a[3..].iter().map(|x| x.parse().unwrap()).collect(); println!("{}", ecrate::replay(&a[1], &a[2], &b)); }\n')
+            "#![allow(unused)]\npub mod support;\n%s\npub fn replay(p: &str, h: &str, b: &[u8]) -> (bool, String) {\n    match p {\n%s\n        _ => (true, String::from(\"unknown program\")),\n    }\n}\n" % (mods, disp))
+        open(os.path.join(self.dir, "src", "bin", "replay.rs"), "w").write(REPLAY_MAIN)
 
     def triage(self):
         """cargo check with the plain toolchain; programs that rustc rejects are excluded and returned with their diagnostics."""
@@ -282,20 +303,29 @@ def decide(ctx, crate, results, keyfn, describe):
         if ctx.finding_for(key) is not None or n_fail > 12:
             ctx.violation(key, "Kani obligation failed: %s" % r["failed_checks"], {"layer": "E", "program": prog.text, "harness": hname, "meta": prog.meta}, no_input=True)
             continue
-        vals = None
-        try:
-            vals = crate.playback(h)
-        except Exception as e:
-            vals = None
         rep = {"layer": "E", "obligation": "%s::%s" % (pname, hname), "failed_checks": r["failed_checks"], "program": prog.text,
                "harness": hname, "meta": prog.meta, "describe": describe(prog)}
-        if vals:
-            byts = [v[0] if v else 0 for v in vals]
-            out = crate.native(pname, hname, byts)
-            rep.update({"input_bytes": byts, "native_replay": out})
-            ctx.violation(key, "Kani obligation failed: %s; native replay: %s" % (r["failed_checks"], out[:300]), rep)
+        # 1. native search on the real expansion (fast); 2. otherwise Kani's concrete playback values, replayed natively
+        out = crate.native(pname, hname, [])
+        m = re.search(r"(REPRODUCED|FOUND) input=\[([0-9, ]*)\] (.*)", out, re.S)
+        if not m:
+            vals = None
+            try:
+                vals = crate.playback(h)
+            except Exception:
+                vals = None
+            if vals:
+                byts = [v[0] if v else 0 for v in vals]
+                out = crate.native(pname, hname, byts)
+                rep["kani_concrete_values"] = byts
+                m = re.search(r"(REPRODUCED|FOUND) input=\[([0-9, ]*)\] (.*)", out, re.S)
+        if m:
+            byts = [int(x) for x in m.group(2).split(",") if x.strip()]
+            rep.update({"input_bytes": byts, "native_replay": m.group(3).strip()})
+            ctx.violation(key, "Kani obligation failed: %s; failing input replayed on the real code: %s" % (r["failed_checks"], m.group(3).strip()[:300]), rep)
         else:
-            ctx.violation(key, "Kani obligation failed: %s (no concrete values extracted)" % r["failed_checks"], rep, no_input=True)
+            rep["native_replay"] = out[-600:]
+            ctx.violation(key, "Kani obligation failed: %s" % r["failed_checks"], rep, no_input=True)
     return n_fail
 
 
@@ -316,6 +346,47 @@ def replay_file(path):
         for d in rej.get("p_replay", []):
             print(d["rendered"])
         return 1
-    if rep.get("input_bytes") is not None:
-        print("native replay on the current tree:", c.native("p_replay", rep["harness"], rep["input_bytes"]))
+    print("native replay on the current tree:", c.native("p_replay", rep["harness"], rep.get("input_bytes") or []))
     return 1
+
+
+def run_family(ctx, pid, progs, canary=None, per=60, compile_violation=True, extra_support="", jobs=NCPU, timeout=3000):
+    """Batch programs into crates, triage with rustc, prove every harness with Kani, turn failures into violations.
+    A canary program (deliberately false contract) must be refuted in the first crate."""
+    stats = {"programs": len(progs), "kani_harnesses": 0, "kani_verified": 0, "kani_wall_s": 0.0, "rustc_wall_s": 0.0,
+             "programs_rejected_by_rustc": 0, "canary_refuted": None, "crates": 0}
+    byname = {p.name: p for p in progs}
+    for ci in range(0, len(progs), per):
+        c = ECrate(pid, "c%02d" % (ci // per), extra_support)
+        for p in progs[ci:ci + per]:
+            c.add(p)
+        if ci == 0 and canary is not None:
+            c.add(canary)
+        c.write()
+        rej = c.triage()
+        res = c.run_kani(timeout=timeout, jobs=jobs)
+        if ci == 0 and canary is not None:
+            can = [h for h in res if h.startswith(canary.name + "::")]
+            if not can or all(res[h]["ok"] for h in can):
+                raise Undecided("canary contract was not refuted: the Kani pipeline is blind")
+            for h in can:
+                del res[h]
+            c.progs = [p for p in c.progs if p.name != canary.name]
+            stats["canary_refuted"] = True
+        stats["kani_harnesses"] += len(res)
+        stats["kani_verified"] += sum(1 for r in res.values() if r["ok"])
+        decide(ctx, c, res, lambda prog, h: "E:%s:%s:%s" % (pid, prog.meta.get("describe", prog.name), h), lambda prog: prog.meta.get("describe", ""))
+        stats["kani_wall_s"] += c.kani_wall
+        stats["rustc_wall_s"] += c.check_wall
+        stats["crates"] += 1
+        for pn, diags in rej.items():
+            prog = byname.get(pn)
+            if prog is None:
+                continue
+            stats["programs_rejected_by_rustc"] += 1
+            if compile_violation and prog.expect_compile:
+                ctx.violation("E:%s:compile:%s" % (pid, prog.meta.get("describe", pn)), "accepted program does not compile: %s" % diags[0]["message"],
+                              {"layer": "E", "program": prog.text, "harness": "", "meta": prog.meta, "rustc": diags[:3]})
+    stats["kani_wall_s"] = round(stats["kani_wall_s"], 1)
+    stats["rustc_wall_s"] = round(stats["rustc_wall_s"], 1)
+    return stats
